@@ -13,6 +13,7 @@ import FwdVerif.Driver.C18
 import FwdVerif.Driver.C19
 import FwdVerif.Driver.C14
 import FwdVerif.Driver.C07
+import FwdVerif.Driver.C15
 
 open FwdVerif
 
@@ -29,6 +30,7 @@ def dispatch (line : String) : String :=
   | "C19" :: rest => C19.handle rest
   | "C14" :: rest => C14.handle rest
   | "C07" :: rest => C07.handle rest
+  | "C15" :: rest => C15.handle rest
   | ["ping"] => "pong"
   | _ => "bad-op"
 
